@@ -67,8 +67,13 @@ BAD_MACS = ['', 'zz:zz:zz:zz:zz:zz', '00:11:22:33:44', '00:11:22:33:44:55:66:77:
             '00:11:22:33:44:5g']
 
 
+MASK_SPELLED = {'2001:db8::/ffff:ffff:ffff:ffff::': '2001:db8::/64', '::/ffff:ffff:ffff:ffff::': '::/64',
+                '2001:db8:1:2::/ffff:ffff:ffff::': '2001:db8:1:2::/48',
+                'fe80::1/ffff:ffff:ffff:ffff::': 'fe80::1/64'}
+
+
 def expected_addr(prefix, m):
-    net = ipaddress.ip_network(prefix, strict=False)
+    net = ipaddress.ip_network(MASK_SPELLED.get(prefix, prefix), strict=False)
     b = [(m >> (8 * (5 - i))) & 0xff for i in range(6)]
     eui = [b[0] ^ 0x02, b[1], b[2], 0xff, 0xfe, b[3], b[4], b[5]]
     iid = int.from_bytes(bytes(eui), 'big')
@@ -82,7 +87,8 @@ def _eui_case(vals, acc):
     mac = mac_str(m, '-' if style == 'dash' else ':')
     if style == 'upper':
         mac = mac.upper()
-    net_low = int(ipaddress.ip_network(prefix, strict=False).network_address) & ((1 << 64) - 1)
+    net_low = int(ipaddress.ip_network(MASK_SPELLED.get(prefix, prefix),
+                                       strict=False).network_address) & ((1 << 64) - 1)
     if net_low & (int(expected_addr('::/64', m)) & ((1 << 64) - 1)):
         return                      # network and identifier collide: undefined by the statement
     acc.nontrivial('%s|%s' % (prefix, mac))
@@ -107,6 +113,18 @@ def _eui_case(vals, acc):
     if not ok:
         acc.fail('eui64-inverse', {'address': str(got), 'mac': mac, 'got': str(back)},
                  {'eui': [prefix, m, style]})
+        return
+    # the EUI handed out belongs to the caller: changing it must not reach the next caller
+    try:
+        back.dialect = netaddr.mac_cisco
+        back.value = (int(back) + 1) % (1 << 48)
+        again = netutils.get_mac_addr_by_ipv6(netaddr.IPAddress(str(got)))
+        ok = int(again) == m and str(again) == mac_str(m) and again is not back
+    except Exception as e:
+        again, ok = ('raises', type(e).__name__), False
+    if not ok:
+        acc.fail('eui64-inverse-result-shared-between-calls',
+                 {'address': str(got), 'mac': mac, 'second_call': str(again)}, {'eui': [prefix, m, style]})
 
 
 def _eui_bad(vals, acc):
@@ -264,7 +282,7 @@ def _url_case(vals, acc):
 def run(ctx):
     rep = ctx.new_report()
     ms = macs(ctx.seed)
-    E.run(rep, 'eui64', [PREFIXES, ms, ['colon', 'upper', 'dash']], _eui_case)
+    E.run(rep, 'eui64', [PREFIXES + sorted(MASK_SPELLED), ms, ['colon', 'upper', 'dash']], _eui_case)
     bad = [(p, mac_str(ms[5]), 'must-raise') for p in BAD_PREFIXES]
     bad += [(PREFIXES[0], m, 'must-raise') for m in BAD_MACS]
     bad += [(p, mac_str(ms[5]), 'type-error') for p in (None, 5, b'2001:db8::/64', ['x'])]
